@@ -130,7 +130,8 @@ func VerifC37_Updates() {
 	power := [4]int64{}
 	sum := int64(0)
 	for id := 0; id < verifC37Alphabet()-1; id++ {
-		if verifChoose("member", 2) == 0 {
+		// quick: the sets {0} and {0,1}; thorough: every non-empty subset of 3 addresses
+		if (verifThorough() || id > 0) && verifChoose("member", 2) == 0 {
 			continue
 		}
 		p := verifNondetInt64("power")
@@ -154,7 +155,11 @@ func VerifC37_Updates() {
 	nch := 1 + verifChoose("changes", 2)
 	var changes []*Validator
 	for k := 0; k < nch; k++ {
-		changes = append(changes, verifC37Change())
+		ch := verifC37Change()
+		if !verifThorough() && k == 0 && nch == 2 && verifC37ID(ch.Address) != 0 {
+			return // quick: two-entry change sets start with address 0 (duplicates (0,0) included)
+		}
+		changes = append(changes, ch)
 	}
 	before := verifC37Snapshot(vs)
 	var err error
